@@ -162,3 +162,15 @@ Theorem sc_rel body off : rel (map fview (sc [] off off body None)) (pieces doll
 Proof.
   rewrite sc_exp. cbn [gtexts gsome]. apply exp_pieces. split; try reflexivity. constructor.
 Qed.
+
+Lemma rel_nil_r xs : rel xs [] -> xs = [].
+Proof. destruct xs as [|x [|y xs]]; cbn [rel]; intros H; try contradiction; reflexivity. Qed.
+
+Lemma rel_length : forall xs ps, rel xs ps -> length xs = length ps.
+Proof.
+  induction xs as [|x xs IH]; intros ps H.
+  - destruct ps; cbn [rel] in H; [reflexivity|contradiction].
+  - destruct ps as [|p ps]. { apply rel_nil_r in H. discriminate H. }
+    cbn [length]. f_equal. apply IH.
+    destruct xs as [|y xs]; destruct ps as [|q ps]; cbn [rel] in H |- *; try tauto.
+Qed.
